@@ -1,7 +1,7 @@
 /-
   C12 — restart recovery.  The core keeps no state: after a restart the shim replays what it knows and the core
   rebuilds every ledger from those SI messages.  This file models
-    * the replay: registered nodes (`Core.nodeCreate`), applications (`appAdd`: partition.AddApplication after the
+    * the replay: registered nodes (`Core.nodeCreate`), applications (`appSub`: partition.AddApplication after the
       placement decision, incl. the task-group checks, which a force-created application skips), bound
       allocations (`recAlloc`: the "new allocation already assigned" branch of partition.UpdateAllocation —
       Queue.IncAllocatedResource without limit, Node.AddAllocation forced, Application.RecoverAllocationAsk +
@@ -79,7 +79,7 @@ def appAddOK (s : Core) (a : RApp) : Bool :=
   !(s.findApp a.id).isSome && (match s.findQueue a.queue with | none => false | some q => q.leaf) && s.gangFits a
 
 /-- partition.AddApplication for the queue the placement chose -/
-def appAdd (s : Core) (a : RApp) : Core × Bool :=
+def appSub (s : Core) (a : RApp) : Core × Bool :=
   if s.appAddOK a then
     ({ s with apps := s.apps ++ [newApp a],
               queues := s.queues.map (fun q => if q.path == a.queue then { q with apps := q.apps ++ [a.id] } else q) }, true)
@@ -156,7 +156,7 @@ def recNode (s : Core) (id : String) (cap : Res) (sched : Bool) : Core × Bool :
 /-- one replayed item: the new state and whether the core accepted it -/
 def rstep (s : Core) : RItem → Core × Bool
   | .node id cap sched => s.recNode id cap sched
-  | .app a => s.appAdd a
+  | .app a => s.appSub a
   | .alloc x => s.recAlloc x
   | .foreign key node res => s.recForeign key node res
   | .ask x => s.recAsk x
